@@ -22,7 +22,7 @@ import c08_validate as val
 THEOREMS = ['C08_volume_str_counts', 'C08_write_wf', 'C08_prune_preserves_wf',
             'C08_prune_total', 'C08_convert_tail_wf',
             'C08_remove_empty_volumes_ok', 'C08_geomcomp_partition',
-            'C08_bc_defined', 'C08_print_parse_roundtrip_partial',
+            'C08_bc_defined',
             'C08_composition_missing_refuted', 'C08_wf_fileb_ok',
             'C08_wf_stateb_sound', 'C08_stage0_okb_sound']
 TRUSTED = [
